@@ -65,6 +65,12 @@ type cWorld struct {
 	stopAt     uint64
 	renewPre   time.Duration
 	renewT0    uint64
+	renewEnd   uint64 // a renewal whose end was arranged before its first transmission: that instant (0 = none)
+	foreignAt  uint64 // an otherwise valid ACK from another server was injected into this selecting / renewing exchange at ...
+	decisiveAt uint64 // ... and the reply the script arranged for it comes at (max = never)
+	vl14       *violationLog
+	vl16       *violationLog
+	seedv      int64
 }
 
 func (w *cWorld) rel() uint64 { return uint64(time.Since(w.start)) }
@@ -201,6 +207,7 @@ func (w *cWorld) exchange(kind int, xid uint32, haveXid bool, t0 uint64, pre tim
 		outcome = 0 // a NAK means nothing while discovering; keep discovery short
 	}
 	li := w.last
+	w.foreignAt, w.decisiveAt = 0, ^uint64(0)
 	hdr := func(oc int, dt time.Duration) L {
 		return L{1, 0, uint64(pre), uint64(oc), uint64(dt), uint64(li.yiaddr), uint64(li.sid), b2n(li.mask != nil), uint64(li.mtu),
 			uint64(li.lease) * 1e9, uint64(li.t1) * 1e9, uint64(li.t2) * 1e9, t0, uint64(kind)}
@@ -215,6 +222,22 @@ func (w *cWorld) exchange(kind int, xid uint32, haveXid bool, t0 uint64, pre tim
 			}
 			p1, p2 := w.reply(typ, xid, bad), w.reply(typ, xid+1, li)
 			sched(pre+ms(1+r.Intn(40)), func() { w.seg.Inject(rsocks.KindIP, p1); w.seg.Inject(rsocks.KindIP, p2) })
+		}
+		// an otherwise perfect ACK from a server that was not chosen: means nothing while selecting or renewing (C14)
+		if haveXid && (kind == 2 || kind == 3) && r.Intn(3) == 0 {
+			other := li
+			other.sid = w.srvIP + 7
+			other.routers = []uint32{other.sid}
+			p := w.reply(5, xid, other)
+			at := pre + ms(1+r.Intn(40))
+			if at < el {
+				at = el
+			}
+			w.foreignAt = t0 + uint64(at)
+			if w.vl14 != nil {
+				atomic.AddInt64(&w.vl14.n, 1)
+			}
+			sched(at, func() { w.seg.Inject(rsocks.KindIP, p) })
 		}
 	}
 	switch {
@@ -243,6 +266,7 @@ func (w *cWorld) exchange(kind int, xid uint32, haveXid bool, t0 uint64, pre tim
 		pkt := w.reply(typ, xid, li)
 		h := hdr(0, dt)
 		w.record(h, &li)
+		w.decisiveAt = t0 + uint64(dt)
 		w.ended[xid] = t0 + uint64(dt)
 		sched(dt, func() { w.seg.Inject(rsocks.KindIP, pkt) })
 	case outcome <= 8: // nothing acceptable arrives: the exchange runs into its deadline
@@ -258,8 +282,11 @@ func (w *cWorld) exchange(kind int, xid uint32, haveXid bool, t0 uint64, pre tim
 		}
 		pkt := w.reply(6, xid, li)
 		w.record(hdr(1, dt), nil)
+		w.decisiveAt = t0 + uint64(dt)
 		if haveXid {
 			w.ended[xid] = t0 + uint64(dt)
+		} else if kind == 3 {
+			w.renewEnd = t0 + uint64(dt)
 		}
 		sched(dt, func() { w.seg.Inject(rsocks.KindIP, pkt) })
 	default: // link-up during the exchange
@@ -270,8 +297,11 @@ func (w *cWorld) exchange(kind int, xid uint32, haveXid bool, t0 uint64, pre tim
 		h := hdr(3, dt)
 		h[1] = 1
 		w.record(h, nil)
+		w.decisiveAt = t0 + uint64(dt)
 		if haveXid {
 			w.ended[xid] = t0 + uint64(dt)
+		} else if kind == 3 {
+			w.renewEnd = t0 + uint64(dt)
 		}
 		sched(dt, func() { ifmon.VerifLinkUp(w.name) })
 	}
@@ -295,6 +325,10 @@ func (w *cWorld) onSend(f rsocks.Frame) {
 			w.after(d, func() { w.seg.Inject(rsocks.KindARP, reply) })
 		}
 		if sender == 0 { // ARP check of the acknowledged address (one request per check)
+			if w.foreignAt != 0 && now >= w.foreignAt && now < w.decisiveAt && w.vl14 != nil {
+				w.vl14.add("foreign-server-ack-accepted", "the client went on to the ARP check at %d ns, after an ACK from a server it had not chosen (injected at %d ns) and before the reply arranged for the exchange (%d ns); seed %d", now, w.foreignAt, w.decisiveAt, w.seedv)
+			}
+			w.foreignAt = 0
 			switch w.r.Intn(8) {
 			case 0:
 				d := ms(1 + w.r.Intn(190))
@@ -322,7 +356,7 @@ func (w *cWorld) onSend(f rsocks.Frame) {
 				pre = ms(1 + w.r.Intn(190))
 				answer(w.srvMAC, pre)
 			}
-			w.renewPre, w.renewT0 = pre, now
+			w.renewPre, w.renewT0, w.renewEnd = pre, now, 0
 			// a NAK or a link-up may arrive before the first transmission; otherwise decide at the first frame
 			if w.r.Intn(5) == 0 {
 				w.arpPending = false
@@ -370,6 +404,9 @@ func (w *cWorld) onSend(f rsocks.Frame) {
 		w.record(L{1, 0, uint64(w.renewPre), 2, 0, uint64(li.yiaddr), uint64(li.sid), b2n(li.mask != nil), uint64(li.mtu), uint64(li.lease) * 1e9, uint64(li.t1) * 1e9, uint64(li.t2) * 1e9, w.renewT0, 3}, nil)
 	}
 	w.acts = append(w.acts, L{4, now, uint64(kind)})
+	if kind == 3 && w.renewEnd != 0 && now > w.renewEnd && w.vl16 != nil {
+		w.vl16.add("tx-after-end", "renewing REQUEST xid %08x transmitted at %d ns although the exchange had ended at %d ns, before its first transmission was due (seed %d)", xid, now, w.renewEnd, w.seedv)
+	}
 	if kind == 3 {
 		if w.arpPending {
 			w.arpPending = false
@@ -430,12 +467,16 @@ func (w *cWorld) onIfcall(op string, n int, c *libif.Ifconfig) error {
 	return nil
 }
 
-func runClientScript(t *testing.T, c *caseWriter, vl *violationLog, seedv int64) {
+func runClientScript(t *testing.T, c *caseWriter, vl *violationLog, seedv int64, vl14 ...*violationLog) {
 	synctest.Test(t, func(t *testing.T) {
 		r := rand.New(rand.NewSource(seedv))
 		name := fmt.Sprintf("cif%d", atomic.AddInt64(&ifaceSeq, 1))
 		w := &cWorld{r: r, name: name, croute: r.Intn(3) > 0, srvIP: 0x0a000001, srvMAC: []byte{2, 0xaa, 0, 0, 0, 1},
 			frames: map[uint32][]uint64{}, ended: map[uint32]uint64{}, maxIter: 6 + r.Intn(40), nakStorm: r.Intn(12) == 0}
+		w.vl16, w.seedv = vl, seedv
+		if len(vl14) > 0 {
+			w.vl14 = vl14[0]
+		}
 		w.iface = &net.Interface{Index: 1, Name: name, HardwareAddr: net.HardwareAddr{2, 0xbb, 0, 0, byte(r.Intn(256)), byte(r.Intn(256))}, MTU: 1500}
 		w.seg = rsocks.VerifSegment(name)
 		w.fake = libif.VerifFake(name)
@@ -468,6 +509,13 @@ func runClientScript(t *testing.T, c *caseWriter, vl *violationLog, seedv int64)
 				break
 			}
 		}
+		// a script that outlives the observation (day-long leases): what was seen up to now is compared
+		w.mu.Lock()
+		if !w.stop && atomic.LoadInt32(&w.crashed) == 0 {
+			w.stop = true
+			w.stopAt = w.rel()
+		}
+		w.mu.Unlock()
 		cancel()
 		<-done
 		synctest.Wait()
@@ -526,10 +574,12 @@ func runClientScript(t *testing.T, c *caseWriter, vl *violationLog, seedv int64)
 func TestC15(t *testing.T) {
 	c := newCaseWriter(t, "c15")
 	defer c.close(t, "c15")
-	vl := &violationLog{}
+	vl, vl14 := &violationLog{}, &violationLog{}
 	for i := 0; i < scale(150, 5000); i++ {
-		runClientScript(t, c, vl, seed()*3000017+int64(i))
+		runClientScript(t, c, vl, seed()*3000017+int64(i), vl14)
 	}
+	vl14.write(t, "c14wiring", map[string]interface{}{"distinct_nontrivial": int(atomic.LoadInt64(&vl14.n)), "histogram": map[string]int{"foreign-ack:exchanges": int(atomic.LoadInt64(&vl14.n))},
+		"samples": []string{"selecting / renewing exchanges of the real client into which an otherwise valid ACK of another server was injected: the client must not proceed before the arranged reply"}})
 	vl.write(t, "c16timing", map[string]interface{}{"distinct_nontrivial": int(atomic.LoadInt64(&vl.n)), "histogram": map[string]int{"retransmission:exchanges": int(atomic.LoadInt64(&vl.n))},
 		"samples": []string{"per exchange (xid): transmission instants on the tap: gaps >= 700 ms, non-decreasing, nothing after the scripted end of the exchange"}})
 }
